@@ -176,8 +176,7 @@ def main():
     changed_trusted = []
     for f in res.fns:
         if f.status in ('trusted', 'external') and f.addr in base_sha and getattr(f, 'src_sha', '') != base_sha[f.addr]:
-            relevant = prop in f.tags or any(prop in t for (a_, b_, o_, t, k_, ad) in res.clause_ranges if ad == f.addr) \
-                or any(f.addr.split('::')[-1] in x or f.addr.split('::')[-2] in x for x in P.get('trusted', []))
+            relevant = prop in f.tags or any(prop in t for (a_, b_, o_, t, k_, ad) in res.clause_ranges if ad == f.addr)
             if relevant:
                 changed_trusted.append(f.addr)
     for a_ in changed_trusted:
